@@ -59,10 +59,18 @@ func (wr *Writer) colorJSON(data any, depth int) {
 
 	case float32:
 		wr.buf = append(wr.buf, wr.NumberColor...)
-		wr.buf = append(wr.buf, []byte(strconv.FormatFloat(float64(td), 'g', -1, 32))...)
+		if 0 < len(wr.FloatFormat) {
+			wr.buf = fmt.Appendf(wr.buf, wr.FloatFormat, float64(td))
+		} else {
+			wr.buf = append(wr.buf, []byte(strconv.FormatFloat(float64(td), 'g', -1, 32))...)
+		}
 	case float64:
 		wr.buf = append(wr.buf, wr.NumberColor...)
-		wr.buf = append(wr.buf, []byte(strconv.FormatFloat(td, 'g', -1, 64))...)
+		if 0 < len(wr.FloatFormat) {
+			wr.buf = fmt.Appendf(wr.buf, wr.FloatFormat, td)
+		} else {
+			wr.buf = append(wr.buf, []byte(strconv.FormatFloat(td, 'g', -1, 64))...)
+		}
 
 	case string:
 		wr.buf = append(wr.buf, wr.StringColor...)
